@@ -70,6 +70,8 @@ def tie_T(run):
                            "the run-time vocabulary coq/Model/C08_GenRt.v (worlds VW / HW, declared primitives bisect_right, "
                            "self.similar, Fitness comparisons / dominates, deepcopy); the regenerated methods are proved equal "
                            "to the hand models (Proofs/C08_gen_equiv.v) and evaluated against the implementation on every run")
+        if os.environ.get("C08_GEN_EVAL") == "0":      # (measurement only) prove the tie, evaluate the hand model alone
+            return "check", [], False
         return "check_both", ["From DV Require Import Corr.C08_gen."], False
     run.extra_cov["tie"] = "translator succeeded but the regenerated definitions are no longer (provably) the model"
     try:        # keep the offending text for the replay
@@ -724,6 +726,7 @@ def main(run):
     D = Driver(run)
     groups = {}
     parts = {}
+    gen_evaluated = [0]  # cases also replayed on the regenerated definitions
     failed = []          # (term, case) of disagreeing cases, for the diagnosis model / regenerated
     sample = []          # a sample of all cases, replayed on the regenerated definitions when they are not proved
 
@@ -737,8 +740,13 @@ def main(run):
         name = group if k == 0 else "%s_p%d" % (group, k)
         # coqc parses big literals slowly: aim at ~120 KB of case text per shard so all cores are used
         avg = max(1, sum(len(t) for t in terms) // len(terms))
+        # the regenerated definitions are evaluated next to the hand model (check_both) on every case of the quick
+        # tier; in the thorough tier the later parts of the large exhaustive groups use the hand model alone (the two
+        # are proved equal, evaluating both costs ~13 % more CPU on 300 000 further histories)
+        both = gen_check == "check_both" and not (run.thorough and group.startswith("exh") and k > 0)
         bad = run.correspond(name, "C08", terms, cases, shard=max(20, min(400, 120000 // avg)),
-                             check=gen_check, requires=gen_reqs)
+                             check=gen_check if both else "check", requires=gen_reqs if both else [])
+        gen_evaluated[0] += len(terms) if both else 0
         for i in bad[:50]:
             if len(failed) < 200:
                 failed.append((terms[i], cases[i]))
@@ -1158,6 +1166,7 @@ def main(run):
     for g in list(groups):
         flush(g)
     run.extra_cov["events_observed"] = dict(D.stats)
+    run.extra_cov["cases_also_evaluated_on_regenerated_definitions"] = gen_evaluated[0]
 
     # ---- tie (T) diagnosis: which of the two executable descriptions disagrees with the implementation? -------
     def replay(name, pairs, check, reqs):
